@@ -35,3 +35,53 @@ fn build_probe() {
     let x: u8 = kani::any();
     assert!(x as u16 <= 255);
 }
+
+// ---------------------------------------------------------------------------------------------
+// A host on which every call is a failure: the pure opcodes (arithmetic, stack, memory, control)
+// must never touch it, and state-changing opcodes in static mode must never reach it.
+use revm_interpreter::{AccountLoad, Host, SStoreResult, SelfDestructResult, StateLoad};
+use revm_primitives::{Bytes, Env, Log};
+
+pub struct NoHost;
+
+impl Host for NoHost {
+    fn env(&self) -> &Env {
+        panic!("host called: env")
+    }
+    fn env_mut(&mut self) -> &mut Env {
+        panic!("host called: env_mut")
+    }
+    fn load_account_delegated(&mut self, _a: Address) -> Option<AccountLoad> {
+        panic!("host called: load_account_delegated")
+    }
+    fn block_hash(&mut self, _n: u64) -> Option<B256> {
+        panic!("host called: block_hash")
+    }
+    fn balance(&mut self, _a: Address) -> Option<StateLoad<U256>> {
+        panic!("host called: balance")
+    }
+    fn code(&mut self, _a: Address) -> Option<StateLoad<Bytes>> {
+        panic!("host called: code")
+    }
+    fn code_hash(&mut self, _a: Address) -> Option<StateLoad<B256>> {
+        panic!("host called: code_hash")
+    }
+    fn sload(&mut self, _a: Address, _i: U256) -> Option<StateLoad<U256>> {
+        panic!("host called: sload")
+    }
+    fn sstore(&mut self, _a: Address, _i: U256, _v: U256) -> Option<StateLoad<SStoreResult>> {
+        panic!("host called: sstore")
+    }
+    fn tload(&mut self, _a: Address, _i: U256) -> U256 {
+        panic!("host called: tload")
+    }
+    fn tstore(&mut self, _a: Address, _i: U256, _v: U256) {
+        panic!("host called: tstore")
+    }
+    fn log(&mut self, _l: Log) {
+        panic!("host called: log")
+    }
+    fn selfdestruct(&mut self, _a: Address, _t: Address) -> Option<StateLoad<SelfDestructResult>> {
+        panic!("host called: selfdestruct")
+    }
+}
